@@ -5,6 +5,7 @@ package main
 // before calling executor.New. All observations are stamped with one global atomic sequence counter.
 
 import (
+	"context"
 	"errors"
 	"fmt"
 	"reflect"
@@ -408,6 +409,8 @@ type sourceScript struct {
 	lastStartReturn int64
 	startSeqs   []int64
 	blockedEmits int
+	setupDelay  map[int]time.Duration // per incarnation: how long Setup takes
+	cancelWrap  bool                  // failures wrap context.Canceled
 }
 
 var currentSource *sourceScript
@@ -454,6 +457,12 @@ func (v *vsource) Setup(config map[string]string, ch chan firebolt.Event) error 
 	if s.setupFails {
 		return errors.New("scripted setup failure")
 	}
+	if d := s.setupDelay[v.inc]; d > 0 {
+		s.mu.Unlock()
+		time.Sleep(d)
+		s.mu.Lock()
+	}
+	s.log = append(s.log, fmt.Sprintf("setupdone%d", v.inc))
 	return nil
 }
 
@@ -474,6 +483,9 @@ func (v *vsource) Start() error {
 			s.log = append(s.log, fmt.Sprintf("fail%d", v.inc))
 			s.lastStartReturn = nextSeq()
 			s.mu.Unlock()
+			if s.cancelWrap {
+				return fmt.Errorf("scripted source failure %d: %w", v.inc, context.Canceled)
+			}
 			return fmt.Errorf("scripted source failure %d", v.inc)
 		}
 		s.mu.Lock()
